@@ -146,6 +146,11 @@ def run_sweep(col, ctx):
         batch.extend(sweep_items(mine[i:i + 40]))
         flush()
     if k == 0:
+        big = '9' * 4400
+        batch.extend([('date', big + '-01-01', None, LOW['date']), ('date', None, '2020-01-01', big + '-12-31'),
+                      ('month', big + '-13', None, LOW['month']), ('week', None, big + '-W01', big + '-W02'),
+                      ('week', big + '-W53', None, '2020-W01'), ('datetime-local', LOW['datetime-local'], None, big + '-02-30T00:00'),
+                      ('month', '1' + big + '-01', big + '-12', big + '-06')])
         for h in range(0, 26):
             for m in ('00', '59', '60', '5'):
                 batch.append(('time', '%02d:%s' % (h, m), None, '00:00'))
